@@ -181,7 +181,7 @@ func genRequest(t *rapid.T, s *testStore) *certexchange.Request {
 
 func TestC16Server(t *testing.T) {
 	rapid.Check(t, func(t *rapid.T) {
-		ctx, cancel := context.WithTimeout(context.Background(), 60*time.Second)
+		ctx, cancel := context.WithTimeout(context.Background(), 600*time.Second)
 		defer cancel()
 		n := rapid.OneOf(rapid.IntRange(0, 12), rapid.IntRange(250, 270)).Draw(t, "stored")
 		if !vev.Thorough() && n > 12 && rapid.IntRange(0, 3).Draw(t, "keepbig") > 0 {
@@ -331,7 +331,7 @@ type round struct {
 
 func TestC16Poller(t *testing.T) {
 	rapid.Check(t, func(t *rapid.T) {
-		ctx, cancel := context.WithTimeout(context.Background(), 60*time.Second)
+		ctx, cancel := context.WithTimeout(context.Background(), 600*time.Second)
 		defer cancel()
 		n := rapid.IntRange(0, 4).Draw(t, "stored")
 		s, future, futureTables := genStore(t, "s", n, rapid.IntRange(1, 6).Draw(t, "future"))
